@@ -189,9 +189,14 @@ func ToV3Operation(doc2 *openapi2.T, components *openapi3.Components, pathItem *
 	}
 
 	if responses := operation.Responses; responses != nil {
+		// like consumes, the document-level list applies when the operation has none of its own
+		produces := operation.Produces
+		if len(produces) == 0 {
+			produces = doc2.Produces
+		}
 		doc3.Responses = openapi3.NewResponsesWithCapacity(len(responses))
 		for k, response := range responses {
-			responseRef3, err := ToV3Response(response, operation.Produces)
+			responseRef3, err := ToV3Response(response, produces)
 			if err != nil {
 				return nil, err
 			}
@@ -1245,7 +1250,19 @@ func FromV3Response(ref *openapi3.ResponseRef, components *openapi3.Components) 
 		Extensions:  stripNonExtensions(response.Extensions),
 	}
 	if content := response.Content; content != nil {
-		if ct := content["application/json"]; ct != nil {
+		// OpenAPI 2 has one schema per response: prefer JSON, else the first media type by name
+		ct := content["application/json"]
+		if ct == nil {
+			names := make([]string, 0, len(content))
+			for name := range content {
+				names = append(names, name)
+			}
+			sort.Strings(names)
+			if len(names) != 0 {
+				ct = content[names[0]]
+			}
+		}
+		if ct != nil && ct.Schema != nil {
 			result.Schema, _ = FromV3SchemaRef(ct.Schema, components)
 		}
 	}
